@@ -232,7 +232,7 @@ func (n *ThreadedNewsYAML) Load() error {
 }
 
 func (n *ThreadedNewsYAML) writeFile() error {
-	out, err := yaml.Marshal(&n.ThreadedNews)
+	out, err := marshalYAML(&n.ThreadedNews)
 	if err != nil {
 		return err
 	}
